@@ -6,7 +6,7 @@ import heapq
 import itertools
 
 from world import (ALL_KINDS, FILL, Item, Susp, SyncIterSource, SrcState, UserBaseExc, UserExc, asyncstdlib, canon,
-                   drive, exc_name, make_source)
+                   drive, exc_name, make_source, user_exc)
 
 A = asyncstdlib
 
@@ -113,7 +113,7 @@ def make_fn(spec, idx, log, flavour="def"):
         log.append(["call", idx, [canon(a) for a in args]])
         if spec.get("fail_at") == n:
             log.append(["callerr", idx, spec.get("eid", 0)])
-            raise UserExc(spec.get("eid", 0))
+            raise user_exc(spec.get("eid", 0))
         v = base(n, args)
         log.append(["ret", idx, canon(v)])
         return v
@@ -358,7 +358,7 @@ def run_async(case, reply=None):
                 out = ["closed"] if res.exc is None else ["raised", exc_name(res.exc)]
                 exc_obj = res.exc
             else:
-                thrown = UserExc(cons.get("eid", 999))
+                thrown = user_exc(cons.get("eid", 999))
                 log.append(["thrown", thrown.eid])
                 res = drive(thing.athrow(thrown), reply)
                 tokens += res.tokens
